@@ -616,9 +616,15 @@ def count_nodes(x, cap=20000):
     return n
 
 
+_TIMEOUTS = [0]
+
+
 def run_case(case):
     env = []
     obs = []
+    if _TIMEOUTS[0] >= 8:
+        # the library hangs on call after call: enough evidence, do not spend minutes on it
+        return {"ops": [{"exc": "Skipped", "mut": [], "shared": [], "rkind": "exc"} for _ in case["ops"]], "skipped": True}
     for k, op in enumerate(case["ops"]):
         names, keep = names_before(env)
         before = [json.dumps(snap(e), sort_keys=True, default=str) for e in env]
@@ -635,6 +641,7 @@ def run_case(case):
             finally:
                 signal.setitimer(signal.ITIMER_REAL, 0)
         except OpTimeout:
+            _TIMEOUTS[0] += 1
             # the call did not return: report which earlier values grew (cheap comparison, the
             # full snapshot may be enormous) and give up on the rest of the case
             mut = [{"env": i, "where": "size %d -> %d%s" % (a, count_nodes(e), "+" if count_nodes(e) >= 20000 else "")}
